@@ -156,33 +156,52 @@ def parse(pattern):
             raise Unsupported("lazy quantifier")
         return lo, hi
 
-    def parse_items(in_group):
+    def parse_seqs(in_group):
+        """the item sequences the (sub)pattern expands to: an alternation inside a group is distributed
+        over what precedes and follows it, keeping the alternatives in priority order"""
         nonlocal pos
-        items = []
+        seqs = [[]]
         while pos < n and pattern[pos] not in "|)":
             c = pattern[pos]
             if c == "(":
                 if in_group:
                     raise Unsupported("nested group")
                 pos += 1
+                noncap = False
                 if pattern.startswith("?:", pos):
-                    raise Unsupported("non-capturing group")
-                group_counter[0] += 1
-                gi = group_counter[0]
-                inner = parse_items(True)
+                    noncap = True
+                    pos += 2
+                gi = 0
+                if not noncap:
+                    group_counter[0] += 1
+                    gi = group_counter[0]
+                inner_alts = [parse_seqs(True)]
+                while pos < n and pattern[pos] == "|":
+                    pos += 1
+                    inner_alts.append(parse_seqs(True))
                 if pos >= n or pattern[pos] != ")":
                     raise Unsupported("unterminated group")
                 pos += 1
                 if pos < n and pattern[pos] in "*+?{":
                     raise Unsupported("quantified group")
-                items.append(Group(gi, inner))
+                flat_inner = [sq for alt in inner_alts for sq in alt]
+                if len(seqs) * len(flat_inner) > 16:
+                    raise Unsupported("too many alternatives after expansion")
+                new_seqs = []
+                for sq in seqs:
+                    for inner in flat_inner:
+                        if gi:
+                            new_seqs.append(sq + [Group(gi, inner)])
+                        else:
+                            new_seqs.append(sq + list(inner))
+                seqs = new_seqs
                 continue
             if c == "$" or c == "^":
                 break
             codes = parse_atom()
             lo, hi = parse_quant()
-            items.append(Item(codes, lo, hi))
-        return items
+            seqs = [sq + [Item(codes, lo, hi)] for sq in seqs]
+        return seqs
 
     alts = []
     while True:
@@ -191,13 +210,14 @@ def parse(pattern):
         if pos < n and pattern[pos] == "^":
             a_start = True
             pos += 1
-        items = parse_items(False)
+        seqs = parse_seqs(False)
         if pos < n and pattern[pos] == "$":
             a_end = True
             pos += 1
         if pos < n and pattern[pos] not in "|":
             raise Unsupported("regex syntax at %r" % pattern[pos:])
-        alts.append(Alt(a_start, a_end, items))
+        for items in seqs:
+            alts.append(Alt(a_start, a_end, items))
         if pos < n and pattern[pos] == "|":
             pos += 1
             continue
